@@ -72,6 +72,42 @@ class RealDiff:
                         out.append(f"{li}:{ri}:{c}:{xt.fbits(d0.node_ratio(ln, rn))}")
         return " ".join(out)
 
+    def eq_assumptions(self, sim):
+        """For a pair of equal documents: do the real node_ratio values meet the hypotheses of
+        C03_equal_documents_empty_script?  SimOK is read off the table `sim` handed to the model;
+        FastOK (fast_match only) is evaluated with the real node_ratio on empty maps, which is the
+        relation the real LCS helper is given.  Returns a list of problems (empty = hypotheses hold)."""
+        from xmldiff import diff, utils
+
+        one = xt.fbits(1.0)
+        tab = {}
+        for e in sim.split():
+            a, b, c, v = e.split(":")
+            tab[(int(a), int(b), int(c))] = int(v)
+        out = []
+        for ln, rn in list(zip(self.lnodes, self.rnodes))[1:]:
+            full = 0 if ln.tag is etree.Comment else len(ln)
+            key = (self.lid[id(ln)], self.rid[id(rn)], full)
+            if tab.get(key) != one:
+                out.append(f"SimOK: sim{key} = {tab.get(key)} is not 1.0")
+                break
+        if self.opts.get("fast_match"):
+            d1 = diff.Differ(**self.opts)
+            d1.set_trees(self.L, self.R)
+            d1._l2rmap, d1._r2lmap, d1._text_cache = {}, {}, {}
+            # same objects as the differ under test uses on the left? no: its own deep copy; positions agree
+            ls = list(utils.post_order_traverse(d1.left))[:-1]
+            rs = list(utils.post_order_traverse(d1.right))[:-1]
+            F = d1.F
+            rel = [[d1.node_ratio(a, b) >= F for b in rs] for a in ls]
+            n = len(ls)
+            for i in range(n):
+                for j in range(n):
+                    if rel[i][j] and not (rel[i][i] and rel[j][j]):
+                        out.append(f"FastOK: node_ratio >= F at ({i},{j}) but not at ({i},{i}) / ({j},{j})")
+                        return out
+        return out
+
     def match(self):
         m = self.differ.match()
         self.keep.append(m)
